@@ -192,8 +192,19 @@ def reader_table(chk, f):
     ok = (isinstance(e2, ast.If) and norm(e2.test) == f"{elt_v} != 'Du'" and len(e2.body) == 1 and norm(e2.body[0]) == f"self.element = {elt_v}" and not e2.orelse)
     chk.require(ok, f"{f.key}: prelude element assignment not recognised")
     ms = [s for s in body[2:] if isinstance(s, ast.Match)]
-    chk.require(len(ms) == 1 and len(body) == 3 and norm(ms[0].subject) == typ_v, f"{f.key}: expected `match {typ_v}` after the prelude")
+    chk.require(len(ms) == 1 and len(body) == 3, f"{f.key}: expected `match {typ_v}` after the prelude")
+    subj = norm(ms[0].subject)
+    transform = None
+    if subj == typ_v:
+        transform = None
+    elif subj in (f"{typ_v}.lower()", f"{typ_v} and {typ_v}.lower()", f"{typ_v}.lower() if {typ_v} else {typ_v}", f"{typ_v}.lower() if {typ_v} is not None else None"):
+        transform = "lower"
+    elif subj in (f"{typ_v}.upper()", f"{typ_v} and {typ_v}.upper()"):
+        transform = "upper"
+    else:
+        raise AnalysisError(f"{f.key}: match subject `{subj}` - unknown idiom")
     rows = []
+    reader_table.transform = transform
 
     def guard_conds(g):
         """list of conds; cond kinds: ('field', fld, const, pos) | ('du', pos) | ('member', pos)"""
@@ -287,7 +298,7 @@ def write_token(wrows, st):
     return None, None
 
 
-def read_token(rrows, token, defaults, element_names):
+def read_token(rrows, token, defaults, element_names, transform=None):
     """-> state dict or 'raise'.  Mirrors the prelude idioms verified by reader_table."""
     if "." in token:
         elt, typ = token.split(".", 1)
@@ -299,8 +310,13 @@ def read_token(rrows, token, defaults, element_names):
         if nm not in element_names:
             return "raise"
         st["element"] = "Element." + nm
+    typ_cmp = typ
+    if typ is not None and transform == "lower":
+        typ_cmp = typ.lower()
+    if typ is not None and transform == "upper":
+        typ_cmp = typ.upper()
     for r in rrows:
-        if r["suffix"] is not any and r["suffix"] != typ:
+        if r["suffix"] is not any and r["suffix"] != typ_cmp:
             continue
         ok = True
         for c in r["conds"]:
@@ -344,6 +360,7 @@ def r1_atom_types(chk):
     chk.analysed(g, s)
     wrows = writer_table(chk, g)
     rrows = reader_table(chk, s)
+    transform = getattr(reader_table, "transform", None)
     chk.require(len(wrows) >= 15 and len(rrows) >= 12, f"decision tables too small ({len(wrows)} writer rows, {len(rrows)} reader rows)")
     elements = list(prog.enum_members(prog.cls(f"{ATOM}:Element")))
     atypes = list(prog.enum_members(prog.cls(f"{ATOM}:AtomType")))
@@ -357,6 +374,9 @@ def r1_atom_types(chk):
         defaults[fld] = dotted(d)
     named = {c[1].split(".")[1] for r in wrows for c in r["conds"] if c[0] == "element"} | \
             {c[2].split(".")[1] for r in rrows for c in r["conds"] if c[0] == "field" and c[1] == "element"}
+    # element symbols that collide (case-insensitively) with a suffix literal of the reader behave specially in `Du.<symbol>` tokens
+    lits = {str(r["suffix"]).lower() for r in rrows if r["suffix"] is not any}
+    named |= {e for e in elements if e.lower() in lits}
     other = [e for e in elements if e not in named and e != "Unknown"]
     if chk.tier == "thorough":
         elist = elements
@@ -375,7 +395,7 @@ def r1_atom_types(chk):
             none_tok.append((e, t, gm))
             continue
         emitted.add(tok if e in named else tok.replace(e, "X", 1))
-        st2 = read_token(rrows, tok, defaults, ename)
+        st2 = read_token(rrows, tok, defaults, ename, transform)
         if st2 == "raise":
             rejected.setdefault(tok, []).append((e, t, gm))
             continue
@@ -584,6 +604,14 @@ def r3_records(chk):
         ok = len(c.args) == 1 and isinstance(c.args[0], ast.Starred) and isinstance(c.args[0].value, ast.Call) and norm(c.args[0].value.func).endswith(".split") and not c.keywords
         chk.decide(ok, "C07.R3", f"{rm.key}:{cname}:positional-from-split", rm.where(c), f"{cname}(*line.split(...))",
                    f"read_mol2 no longer fills {cname} positionally from the split record line")
+    # the parser must see the text of every line: only surrounding whitespace may be removed before the positional parse
+    lr = calls_named(rm.node, {"LineReader"})
+    chk.require(len(lr) == 1, "read_mol2: LineReader construction not found")
+    post = lr[0].args[1] if len(lr[0].args) > 1 else kwarg(lr[0], "post")
+    okp = norm(lr[0].args[0]) == rm.params()[0] and (post is None or norm(post) in ("str.strip", "str.rstrip"))
+    chk.decide(okp, "C07.R3", f"{rm.key}:lines-only-stripped", rm.where(lr[0]), f"LineReader(input, {norm(post) if post is not None else None})",
+               f"read_mol2 pre-processes every line with `{norm(post) if post is not None else norm(lr[0].args[0])}`: anything but whitespace stripping can remove or alter tokens of names, labels and "
+               "record fields that molli's own writer emits")
     # consumers
     src = norm(ym.node)
     cons = {
